@@ -10,7 +10,7 @@ import random
 import numpy as np
 
 from .. import engine_rec, rd_model, rd_rec
-from ..vlib import build, tlc, util
+from ..vlib import apalache, build, tlc, util
 from ..vlib.report import MachineryError, Report
 
 util.ensure_repo_importable()
@@ -265,6 +265,13 @@ def run(tier, selftest=False, only=None):
         else:
             raise MachineryError("TLC failed: %s\n%s" % (r.error, r.tail(20)))
     rep.exhaustive = True
+    # for ALL grid sizes (Apalache, symbolic): the engine's neighbour arithmetic stays inside the mesh or says "no neighbour"
+    apalache.obligations(rep, "GridInd",
+                         [("flattened cell index inside the mesh", "Init", "CellSafe", 0),
+                          ("neighbour index inside the mesh or -1", "Init", "NbrSafe", 0),
+                          ("fully periodic grids always have a neighbour", "Init", "PeriodicTotal", 0)],
+                         [("no bounds test before flattening", [("Nbr == IF InB(X1, Y1, Z1) THEN Idx(X1, Y1, Z1) ELSE -1", "Nbr == Idx(X1, Y1, Z1)")], "Init", "NbrSafe", 0),
+                          ("x wrapped with the height", [("(w + x + DX) % w", "(w + x + DX) % h")], "Init", "PeriodicTotal", 0)])
     grids = [json.loads(tlc.unquote_tla_json(l)) for l in r.out.splitlines() if l.startswith('<<"PROGRAM"')]
     if r.ok and len(grids) < 216:
         raise MachineryError("only %d grids emitted" % len(grids))
